@@ -85,6 +85,24 @@ class InverseCircuit(Harness):
                         S.prove(f"{label}-represents-generator[{i}]", O.member_with_destabs(r, s, d))
 
 
+F16_LABELS = ["IZIZY", "XXYXI", "YYYIX", "ZIZII", "ZZIII"]
+
+
+class InverseCircuitPinned(InverseCircuit):
+    """inverse_circuit on ONE Pauli pattern (all 2^n sign patterns symbolic) -- pins the known finding F16"""
+
+    weight = 5
+
+    def input_space(self):
+        return len(self.labels)
+
+    def declare(self, S):
+        from vf.common import declare_pinned_stabilizer
+        spec = declare_pinned_stabilizer(S, self.labels)
+        assume_valid_stabilizer(S, spec)
+        return spec
+
+
 class GraphToClifford(Harness):
     """get_stabilizer_tableau_from_graph / get_clifford_tableau_from_graph on a symbolic simple graph"""
 
@@ -130,6 +148,7 @@ def plan(tier):
         if n >= 5:
             h.parallel = True
         jobs.append((h, {}))
+    jobs.append((InverseCircuitPinned(n=5, mode="core", labels=F16_LABELS), {}))
     if q:
         h = InverseCircuit(n=3, mode="core")
         h.parallel = True
